@@ -10,7 +10,7 @@ var (
 	HostsNames = []string{"host", "a.b", "bad._host", "-a.com", "a..b", "x.123", "é.com", "\xff.com", "a\r", "a\r.com", "a\v.b", "nb sp.com", "_srv.tcp.x", "UPPER.Case", "xn--e1afmkfd.com",
 		"1", "com.", ".", "Über.example", "good.host", "h", "a-", "localhost", "x.y.z.w", "a_b.c", "*.wild.com", "a/b"}
 	HostsSeps   = []string{" ", "\t", "  ", " \t ", "\t\t", "\v", "\r", " ", "\f", " \t\t  "}
-	HostsLeads  = []string{"", " ", "\t ", "\r", "\v", " ", "\f"}
+	HostsLeads  = []string{"", " ", "\t ", "\r", "\v", " ", "\f", "\ufeff", "\ufeff "}
 	HostsTrails = []string{"", " ", "\t", "\r", "\r\r", " #c", "#c", " # c # d", "\v", "\f", " ", " \t ", "#", "\t#\t1.2.3.4 x"}
 )
 
